@@ -23,7 +23,7 @@ EXPLANATION = (
     "The real operator-algebra classes are executed on symbolic matrices, scalars and vectors for every well-typed expression tree of bounded depth "
     "(programs) and compared with the corresponding matrix expression as polynomial identities (z3/cvc5); ill-typed trees must be rejected."
 )
-ROUNDS = ((("z3", 20), ("cvc5", 20)), (("z3", 120), ("cvc5", 120)))
+ROUNDS = ((("z3", 20), ("cvc5", 20)), (("z3", 120), ("cvc5", 120)), (("z3", 600), ("cvc5", 600)))
 
 
 class Leaf:
